@@ -331,12 +331,27 @@ fn gen_delegation_method<'s>(
                 self.as_ref().borrow().#fn_ident(#(#arguments),*)
             },
         },
-        _ => DelegatingMethod {
-            trait_fn,
-            call: quote! {
-                self.as_ref().#fn_ident(#(#arguments),*)
-            },
-        },
+        _ => {
+            // A method that takes `self` by value cannot be forwarded through a shared reference
+            let takes_self_by_value = matches!(
+                fn_sig.inputs.first(),
+                Some(syn::FnArg::Receiver(syn::Receiver {
+                    reference: None,
+                    colon_token: None,
+                    ..
+                }))
+            );
+            let call = if takes_self_by_value {
+                quote! {
+                    self.into_inner().#fn_ident(#(#arguments),*)
+                }
+            } else {
+                quote! {
+                    self.as_ref().#fn_ident(#(#arguments),*)
+                }
+            };
+            DelegatingMethod { trait_fn, call }
+        }
     }
 }
 
